@@ -19,7 +19,7 @@ import (
 // function of the repository (events of inlined callees carry the function's name), or a built-in pseudo event.
 // A pattern that matches nothing is a contract error (exit 3, no VIOLATION line).
 
-var pseudoEvents = []string{"map.update", "map.delete", "map.next", "mem.store", "chan.send", "chan.recv", "chan.close",
+var pseudoEvents = []string{"map.update", "map.delete", "map.next", "range.next", "mem.store", "chan.send", "chan.recv", "chan.close",
 	"chan.select.recv", "chan.select.send", "return", "slice.append"}
 
 // ifaceNames: the named interface types of the repository's packages (filled by validatePatterns).
